@@ -64,13 +64,33 @@ Qed.
 
 Lemma fanout_no_lazy : forall n its, no_lazy its -> no_lazy (fanout n its).
 Proof.
-  intros n its H. destruct n as [|[|n]]; cbn [fanout]; auto.
-  unfold no_lazy in H. rewrite H, app_nil_r. exact H.
+  intros n its H. destruct n as [|[|n]]; cbn [fanout]; auto. apply map_forwarded_no_lazy.
 Qed.
 
-Lemma fanout_keeps : forall n its it, In it its -> In it (fanout n its).
+(* a stream copied for two or more readers: whatever the source does, no copy panics when read;
+   the panic of the source is an error item (with the payload) on every copy, and what the source
+   holds otherwise is handed on (repair of F-C13d) *)
+Lemma fanout_contains_lemma : forall n its, (2 <= n)%nat -> no_lazy (fanout n its).
 Proof.
-  intros n its it H. destruct n as [|[|n]]; cbn [fanout]; auto. apply in_or_app. left. exact H.
+  intros n its Hn. destruct n as [|[|n]]; try lia. cbn [fanout]. apply map_forwarded_no_lazy.
+Qed.
+
+Lemma fanout_keeps : forall n its it, In it its -> In it (fanout n its) \/ In (forwarded it) (fanout n its).
+Proof.
+  intros n its it H. destruct n as [|[|n]]; cbn [fanout]; auto. right. apply in_map. exact H.
+Qed.
+
+Lemma fanout_panic_item_lemma : forall n its i, (2 <= n)%nat -> In (ILazy i) its ->
+  In (IErr (PanicErr i)) (fanout n its).
+Proof.
+  intros n its i Hn Hin. destruct n as [|[|n]]; try lia. cbn [fanout].
+  change (IErr (PanicErr i)) with (forwarded (ILazy i)). apply in_map. exact Hin.
+Qed.
+
+Lemma fanout_keeps_items_lemma : forall n its e, In (IErr e) its -> In (IErr e) (fanout n its).
+Proof.
+  intros n its e Hin. destruct n as [|[|n]]; cbn [fanout]; auto.
+  change (IErr e) with (forwarded (IErr e)). apply in_map. exact Hin.
 Qed.
 
 (* ToolsNode.Stream with two or more calls merges the tools' streams: a tool stream that panics
